@@ -84,6 +84,15 @@ CHECKS = {
              "bounded space) plus hundreds of thousands of generated boundary and mutated inputs agree with independent "
              "references in value, overflow flag, acceptance and expansion; sanitizers silent",
         ref="DESIGN.md §5 C20"),
+    "C16": dict(
+        technique="runtime monitoring with a reference model: per-unit key->value map and destructor ledger with tagged "
+                  "values, all three access APIs, cross-unit sets on disjoint keys racing with table creation, key-table "
+                  "size matrix via environment, delay injection, ASan/TSan builds",
+        category="exploration",
+        text="held on the executions produced: every get equals the reference map, no value crosses units or keys, each "
+             "non-NULL final value gets exactly one destructor call at free/auto-free/finalize (none earlier), values survive "
+             "revive; for table sizes 1..1024 with up to 200 keys (long chains, chained memory blocks)",
+        ref="DESIGN.md §5 C16"),
 }
 
 
